@@ -289,8 +289,8 @@ func commutative(op Op) bool {
 	return false
 }
 
-// constLeaves reports whether t is an ite-tree with only constant leaves and at
-// most max leaves.
+// constLeaves reports whether t is an ite-DAG with only constant leaves and at
+// most max distinct nodes.
 func constLeaves(t *T, max int) (int, bool) {
 	if t.IsConst() {
 		return 1, true
@@ -298,25 +298,74 @@ func constLeaves(t *T, max int) (int, bool) {
 	if t.Op != OIte {
 		return 0, false
 	}
-	n1, ok := constLeaves(t.B, max)
-	if !ok || n1 > max {
-		return 0, false
+	seen := map[*T]bool{}
+	ok := true
+	var walk func(x *T)
+	walk = func(x *T) {
+		if !ok || seen[x] {
+			return
+		}
+		seen[x] = true
+		if len(seen) > max {
+			ok = false
+			return
+		}
+		if x.IsConst() {
+			return
+		}
+		if x.Op != OIte {
+			ok = false
+			return
+		}
+		walk(x.B)
+		walk(x.C)
 	}
-	n2, ok := constLeaves(t.C, max-n1)
-	if !ok || n1+n2 > max {
-		return 0, false
-	}
-	return n1 + n2, true
+	walk(t)
+	return len(seen), ok
 }
 
 func (b *B) mapLeaves(t *T, f func(*T) *T) *T {
-	if t.Op == OIte {
-		return b.Ite(t.A, b.mapLeaves(t.B, f), b.mapLeaves(t.C, f))
+	memo := map[*T]*T{}
+	var rec func(x *T) *T
+	rec = func(x *T) *T {
+		if r, ok := memo[x]; ok {
+			return r
+		}
+		var r *T
+		if x.Op == OIte {
+			r = b.Ite(x.A, rec(x.B), rec(x.C))
+		} else {
+			r = f(x)
+		}
+		memo[x] = r
+		return r
 	}
-	return f(t)
+	return rec(t)
 }
 
-const liftMax = 16
+// caseTree returns x in lifted form (an ite-DAG with constant leaves) when x is
+// such a DAG possibly under zero/sign extensions; ok=false otherwise.
+func (b *B) caseTree(x *T) (*T, bool) {
+	switch x.Op {
+	case OIte:
+		if _, ok := constLeaves(x, liftMax); ok {
+			return x, true
+		}
+	case OZExt:
+		if in, ok := b.caseTree(x.A); ok {
+			w := int(x.W)
+			return b.mapLeaves(in, func(l *T) *T { return b.ZExt(l, w) }), true
+		}
+	case OSExt:
+		if in, ok := b.caseTree(x.A); ok {
+			w := int(x.W)
+			return b.mapLeaves(in, func(l *T) *T { return b.SExt(l, w) }), true
+		}
+	}
+	return nil, false
+}
+
+const liftMax = 600
 
 // Bin builds a binary bit-vector operation (operands must have equal width).
 func (b *B) Bin(op Op, x, y *T) *T {
@@ -366,16 +415,16 @@ func (b *B) Bin(op Op, x, y *T) *T {
 				v, _ := evalBin(op, w, x.B.V, y.V)
 				return b.Bin(op, x.A, b.Const(w, v))
 			}
-			if _, ok := constLeaves(x, liftMax); ok && x.Op == OIte {
-				return b.mapLeaves(x, func(l *T) *T { return b.Bin(op, l, y) })
+			if ct, ok := b.caseTree(x); ok {
+				return b.mapLeaves(ct, func(l *T) *T { return b.Bin(op, l, y) })
 			}
 		}
 		if x.Op == OConst && !commutative(op) {
 			if x.V == 0 && (op == OShl || op == OLShr || op == OAShr) {
 				return x
 			}
-			if _, ok := constLeaves(y, liftMax); ok && y.Op == OIte {
-				return b.mapLeaves(y, func(l *T) *T { return b.Bin(op, x, l) })
+			if ct, ok := b.caseTree(y); ok {
+				return b.mapLeaves(ct, func(l *T) *T { return b.Bin(op, x, l) })
 			}
 		}
 		if x == y {
@@ -384,6 +433,15 @@ func (b *B) Bin(op Op, x, y *T) *T {
 				return b.Const(w, 0)
 			case OAnd, OOr:
 				return x
+			}
+		}
+		// (a-b)+b -> a
+		if op == OAdd {
+			if x.Op == OSub && x.B == y {
+				return x.A
+			}
+			if y.Op == OSub && y.B == x {
+				return y.A
 			}
 		}
 		// (a+b)-b -> a ; (a^b)^b -> a
@@ -410,6 +468,37 @@ func (b *B) Bin(op Op, x, y *T) *T {
 				}
 				if y.A == x {
 					return y.B
+				}
+			}
+		}
+	}
+	if !b.NoSimp && (op == OOr || op == OAdd || op == OXor) && (segShape(x) || segShape(y)) && (segShape(x) || x.Op == OConst || x.Op == OExtract || x.Op == OVar) && (segShape(y) || y.Op == OExtract || y.Op == OVar) {
+		if r, ok := b.mergeDisjoint(x, y); ok {
+			return r
+		}
+	}
+	if !b.NoSimp && (op == OShl || op == OLShr) && y.Op == OConst && (segShape(x) || x.Op == OExtract) && y.V < uint64(w) {
+		t := b.mk(op, uint8(w), x, y, nil, 0, "")
+		return b.normalizeShape(t)
+	}
+	if !b.NoSimp && op == OAnd && y.Op == OConst {
+		// mask with a contiguous run of ones: zero-extended extract
+		m := y.V
+		if m != 0 {
+			lo := bits.TrailingZeros64(m)
+			run := m >> uint(lo)
+			if run&(run+1) == 0 { // contiguous
+				hi := lo + bits.Len64(run) - 1
+				if hi < w {
+					e := b.Extract(x, hi, lo)
+					var r *T = e
+					if hi < w-1 {
+						r = b.ZExt(e, w-lo)
+					}
+					if lo > 0 {
+						r = b.Concat(r, b.Const(lo, 0))
+					}
+					return r
 				}
 			}
 		}
@@ -463,8 +552,8 @@ func (b *B) Cmp(op Op, x, y *T) *T {
 	}
 	if !b.NoSimp {
 		if y.Op == OConst {
-			if _, ok := constLeaves(x, liftMax); ok && x.Op == OIte {
-				return b.mapLeaves(x, func(l *T) *T { return b.Cmp(op, l, y) })
+			if ct, ok := b.caseTree(x); ok {
+				return b.mapLeaves(ct, func(l *T) *T { return b.Cmp(op, l, y) })
 			}
 			if op == OEq {
 				// zext(a) == k
@@ -500,8 +589,8 @@ func (b *B) Cmp(op Op, x, y *T) *T {
 			}
 		}
 		if x.Op == OConst {
-			if _, ok := constLeaves(y, liftMax); ok && y.Op == OIte {
-				return b.mapLeaves(y, func(l *T) *T { return b.Cmp(op, x, l) })
+			if ct, ok := b.caseTree(y); ok {
+				return b.mapLeaves(ct, func(l *T) *T { return b.Cmp(op, x, l) })
 			}
 			if op == OUle && x.V == 0 {
 				return b.True
@@ -660,6 +749,9 @@ func (b *B) Extract(x *T, hi, lo int) *T {
 		if lo >= lw {
 			return b.Extract(x.A, hi-lw, lo-lw)
 		}
+		if !b.NoSimp {
+			return b.Concat(b.Extract(x.A, hi-lw, 0), b.Extract(x.B, lw-1, lo))
+		}
 	case OZExt:
 		aw := int(x.A.W)
 		if hi < aw {
@@ -677,6 +769,28 @@ func (b *B) Extract(x *T, hi, lo int) *T {
 	case OExtract:
 		l0 := int(x.V & 0xff)
 		return b.Extract(x.A, hi+l0, lo+l0)
+	case OLShr:
+		if !b.NoSimp && x.B.Op == OConst && x.B.V < uint64(w) {
+			k := int(x.B.V)
+			if hi+k < w {
+				return b.Extract(x.A, hi+k, lo+k)
+			}
+			if lo+k >= w {
+				return b.Const(nw, 0)
+			}
+			return b.ZExt(b.Extract(x.A, w-1, lo+k), nw)
+		}
+	case OShl:
+		if !b.NoSimp && x.B.Op == OConst && x.B.V < uint64(w) {
+			k := int(x.B.V)
+			if lo >= k {
+				return b.Extract(x.A, hi-k, lo-k)
+			}
+			if hi < k {
+				return b.Const(nw, 0)
+			}
+			return b.Concat(b.Extract(x.A, hi-k, 0), b.Const(k-lo, 0))
+		}
 	case OIte:
 		if _, ok := constLeaves(x, liftMax); ok {
 			return b.mapLeaves(x, func(l *T) *T { return b.Extract(l, hi, lo) })
@@ -707,11 +821,6 @@ func (b *B) ZExt(x *T, w int) *T {
 	if x.Op == OZExt {
 		return b.ZExt(x.A, w)
 	}
-	if x.Op == OIte {
-		if _, ok := constLeaves(x, liftMax); ok {
-			return b.mapLeaves(x, func(l *T) *T { return b.ZExt(l, w) })
-		}
-	}
 	return b.mk(OZExt, uint8(w), x, nil, nil, 0, "")
 }
 
@@ -727,11 +836,6 @@ func (b *B) SExt(x *T, w int) *T {
 	}
 	if x.Op == OZExt { // zero-extended value is non-negative
 		return b.ZExt(x.A, w)
-	}
-	if x.Op == OIte {
-		if _, ok := constLeaves(x, liftMax); ok {
-			return b.mapLeaves(x, func(l *T) *T { return b.SExt(l, w) })
-		}
 	}
 	return b.mk(OSExt, uint8(w), x, nil, nil, 0, "")
 }
